@@ -148,6 +148,7 @@ def run(ck):
         "from shapes); only their None-layer branches are checked for presence.")
     ck.assumptions += ["children are self-consistent (never => false, always => true)", "fewer than 64 filters"]
     ck.rule("C08.R9", "a Vec / Layered tree replaces its computed interest by the per-filter sum only if every part is per-layer-filtered (as C07.R7)", floor=2)
+    ck.rule("C08.R10", "FilterFn / DynFilterFn builder steps keep the predicate and the other hint (same-named field carry-over, as C13.R6)", floor=3)
     ck.rule("C08.R8", "level hints and thresholds are compared by a correct total order (as C19.R1/R2/R4)", floor=60)
     ck.rule("C08.R1", "And/Or/Not: interest table sound w.r.t. enabled; hint is a sound bound", floor=6)
     ck.rule("C08.R2", "Option<F>: None is neutral, Some forwards", floor=4)
@@ -160,6 +161,8 @@ def run(ck):
     C19.order_rules(ck, F, "C08.R8")
     from rules import C07
     C07.r7(ck, F, rid="C08.R9")
+    from rulekit.query import builder_carry_over
+    builder_carry_over(ck, F, "C08.R10", ("tracing_subscriber::filter::filter_fn::",))
     r1(ck, F)
     r2(ck, F)
     r3(ck, F)
